@@ -927,6 +927,28 @@ theorem causal_of_expected : ∀ (evs : List Ev) (σ : Sys), Inv σ → Expected
 
 theorem inv_initial : Inv ⟨⟨.head, []⟩, ⟨.wait, []⟩⟩ := fun h => absurd rfl h
 
+/-- **expect_only_when_idle** (audit round 6): `expect` leaves a reader that is not in `wait` unchanged — a silent default.
+    Under `Inv` that branch is never taken: at both places where `sysStep` applies `expect`, the upstream reader IS in `wait`
+    — when a segment of the client completes a request (otherwise the client-side reader would be waiting and complete
+    nothing), and when a released pipelined request follows a completed response (a reader that has just completed a message is
+    in `wait`). -/
+theorem expect_only_when_idle (σ : Sys) (hi : Inv σ) :
+    (∀ d, hasMsg (feed sizeQ σ.s d).2 = true → σ.c.phase = .wait) ∧
+    (∀ e, hasMsg (feed sizeR σ.c e).2 = true → (feed sizeR σ.c e).1.phase = .wait) := by
+  constructor
+  · intro d hm
+    by_cases h : σ.c.phase = .wait
+    · exact h
+    · have hw := hi h
+      obtain ⟨⟨p, buf⟩, c⟩ := σ
+      simp only at hw; subst hw
+      rw [wait_buffers] at hm
+      simp [hasMsg] at hm
+  · intro e hm
+    rcases feed_msg sizeR σ.c e with ⟨_, h2, _⟩ | ⟨h1, _, _⟩
+    · rw [h2] at hm; cases hm
+    · exact h1
+
 /-- **answered_in_order**: "pipelined requests are answered in order, each response matched to its own request" — in every run
     the completed messages alternate request, response, request, response …: the k-th relayed response comes after the k-th
     forwarded request and before the (k+1)-th, whatever the segmentation and interleaving -/
